@@ -2,9 +2,9 @@ from common import *
 from regcommon import *
 import C01, C02
 ID = 'C03'
-TRANSLATORS = [('consts2coq.py', ['coq/Gen/Consts.v'])]
-GEN_FILES = ['coq/Gen/Consts.v']
-COQ_TARGETS = ['Properties_C03.vo', 'Proof/ConstsReg.vo']
+TRANSLATORS = [('consts2coq.py', ['coq/Gen/Consts.v']), ('reg2coq.py', ['coq/Gen/RegLeafGen.v'])]
+GEN_FILES = ['coq/Gen/Consts.v', 'coq/Gen/RegLeafGen.v']
+COQ_TARGETS = ['Properties_C03.vo', 'Proof/ConstsReg.vo', 'Proof/RegLeafT.vo']
 HARNESS_MODS = ['reg']
 RULE = ('reg.run cases (see C01) whose operations are block reads and range iterations over the small-scope table family: EVERY (address, length) window position incl. starts in holes, in gaps between '
         'registers, in the middle of multi-word registers and at area edges; readable and write-only areas; the destination is an exact-size heap block pre-filled with 0xEEEE; iteration callbacks follow '
@@ -15,7 +15,7 @@ EXHAUSTIVE = {'quick': False, 'thorough': False}
 NO_SHRINK = True
 TECHNIQUE = 'Coq proof (block read = flat address space model with zero fill; iteration = ascending overlapping registers cut at first non-zero callback result) + correspondence over every window'
 LEVEL_TEXT = ('Theorems in Properties_C03.v: zero length; NOENTRY iff an address of the request is unmapped, with the first such address; a successful block read delivers for every address of the request the word of the area mapping it, zero for non-readable areas, across area borders (flat word-memory abstraction); it reads back exactly what a successful block write stored; register_foreach_in visits exactly the registers overlapping the range, in order, and stops at the first non-zero callback result.  Model tied to the C by correspondence.')
-LEVEL_NOTE = 'Trusted: Coq kernel; hand model of registers/core.c read/iteration paths (correspondence-tested on every window); ASan for the destination. No axioms.'
+LEVEL_NOTE = 'Trusted: Coq kernel; hand model of registers/core.c read/iteration paths (correspondence-tested on every window); ASan for the destination. No axioms. Translator tie: reg_range_touches and ra_addr_is_part_of of src/registers/core.c, translated on every check (tools/reg2coq.py), are proved equal to overlaps / addr_in_area of the model (Proof/RegLeafT.v).'
 
 def gen(rng, tier):
     big = tier == 'thorough'
